@@ -1043,7 +1043,46 @@ type rangeSite struct {
 
 type construct struct{ kind, file, fn, detail string }
 
+// isMutableNumericInit: the initialiser (or declared type) of a package-level variable is one of the big-number wrappers
+// whose methods ending in `Mut` (and big.Int's own methods) change the value IN PLACE: a second name for such a variable shares it.
+func isMutableNumericInit(fset *token.FileSet, spec *ast.ValueSpec) bool {
+	txt := ""
+	if spec.Type != nil {
+		txt += normText(fset, spec.Type) + " "
+	}
+	for _, v := range spec.Values {
+		txt += normText(fset, v) + " "
+	}
+	for _, k := range []string{"LegacyDec", "LegacyNewDec", "LegacyZeroDec", "LegacyOneDec", "LegacyMustNewDec", "LegacySmallestDec", "math.Int", "sdkmath.Int", "NewInt", "ZeroInt", "OneInt", "big.Int", "NewDecFromInt64", "math.Dec"} {
+		if strings.Contains(txt, k) {
+			return true
+		}
+	}
+	return false
+}
+
 func scanDeterminism(l *factsLoader, dirs []string) (sites []rangeSite, cons []construct, nRange int) {
+	// package-level big-number variables of all consensus packages (by name: a qualified use `pkg.Name` is matched by Name)
+	sharedNum := map[string]bool{}
+	for _, d := range dirs {
+		p := l.load(d)
+		for _, fname := range p.names {
+			if !consensusFile(fname) {
+				continue
+			}
+			for _, decl := range p.files[fname].Decls {
+				if gd, ok := decl.(*ast.GenDecl); ok && gd.Tok == token.VAR {
+					for _, sp := range gd.Specs {
+						if vs, ok := sp.(*ast.ValueSpec); ok && isMutableNumericInit(l.fset, vs) {
+							for _, n := range vs.Names {
+								sharedNum[n.Name] = true
+							}
+						}
+					}
+				}
+			}
+		}
+	}
 	for _, d := range dirs {
 		p := l.load(d)
 		for _, fname := range p.names {
@@ -1083,11 +1122,57 @@ func scanDeterminism(l *factsLoader, dirs []string) (sites []rangeSite, cons []c
 				}
 			}
 			scanNode := func(fnName string, root ast.Node, sc *scope, fd *ast.FuncDecl) {
+				// names that alias a package-level big-number variable inside this function (x := shared, x = pkg.Shared)
+				tainted := map[string]bool{}
+				sharedSrc := func(e ast.Expr) bool {
+					switch y := e.(type) {
+					case *ast.Ident:
+						if tainted[y.Name] {
+							return true
+						}
+						if sharedNum[y.Name] {
+							local := false
+							if sc != nil {
+								_, local = sc.vars[y.Name]
+							}
+							return !local
+						}
+					case *ast.SelectorExpr:
+						if _, ok := y.X.(*ast.Ident); ok && sharedNum[y.Sel.Name] {
+							return true
+						}
+					}
+					return false
+				}
 				ast.Inspect(root, func(n ast.Node) bool {
 					if n == nil {
 						return true
 					}
 					switch x := n.(type) {
+					case *ast.AssignStmt:
+						if fd != nil && len(x.Lhs) == len(x.Rhs) {
+							for i := range x.Lhs {
+								if id, ok := x.Lhs[i].(*ast.Ident); ok && id.Name != "_" {
+									if sharedSrc(x.Rhs[i]) {
+										tainted[id.Name] = true
+									} else {
+										delete(tainted, id.Name)
+									}
+								}
+							}
+						}
+					case *ast.CallExpr:
+						if fd != nil {
+							if se, ok := x.Fun.(*ast.SelectorExpr); ok && (strings.HasSuffix(se.Sel.Name, "Mut") || se.Sel.Name == "SetInt64" || se.Sel.Name == "SetUint64") && sharedSrc(se.X) {
+								cons = append(cons, construct{"shared-mutation", rel, fnName, normText(l.fset, x.Fun)})
+							}
+						}
+					case *ast.CompositeLit:
+						// an acknowledgement (committed to state, relayed) carrying the raw text of an error: error strings may contain
+						// addresses and differ between nodes; ibc-go's NewErrorAcknowledgement strips them for that reason
+						if strings.HasSuffix(normText(l.fset, x.Type), "Acknowledgement_Error") && strings.Contains(normText(l.fset, x), ".Error()") {
+							cons = append(cons, construct{"error-text-in-state", rel, fnName, normText(l.fset, x)})
+						}
 					case *ast.GoStmt:
 						cons = append(cons, construct{"go", rel, fnName, normText(l.fset, x.Call.Fun)})
 					case *ast.SelectStmt:
